@@ -15,7 +15,8 @@ for p in $list; do
   case "$p" in *"$PAT"*) ;; *) continue;; esac
   case "$p" in
     */sensitivity/*) name=$(basename "$p" .diff); prop=${name%%-*};;
-    *) name=$(basename "$(dirname "$p")"); prop=$(python3 -c "import json,sys;print(json.load(open(sys.argv[1]))['property'])" "$(dirname "$p")/meta.json");;
+    # (run_check: the check whose seam the defect needs, when that is not the check of the property the agent aimed at)
+    *) name=$(basename "$(dirname "$p")"); prop=$(python3 -c "import json,sys;m=json.load(open(sys.argv[1]));print(m.get('run_check') or m['property'])" "$(dirname "$p")/meta.json");;
   esac
   if ! git -C /repo apply "$p" 2>/dev/null; then echo "SKIP  $name (patch does not apply)"; continue; fi
   tests="-"
